@@ -52,7 +52,8 @@ def benign_table():
         for chk, r in sorted(m.get('checks', {}).items()):
             p = chk.split(':')[0]
             verdict = 'silent' if r['exit'] == 0 and not r['violations'] else ('inconclusive' if r['exit'] == 2 else 'ALARM')
-            (own if p == m['property'] else other).append('%s %s' % (p, verdict))
+            note = m.get('triage', {}).get(p)
+            (own if p == m['property'] else other).append('%s %s%s' % (p, verdict, ' (%s)' % note if note else ''))
         print('| %s %s | %s | %s |' % (name, title, '; '.join(own), ', '.join(other) or '-'))
 
 
